@@ -15,7 +15,7 @@ HOSTS = ['', '', 'example.com', 'EXAMPLE.COM', 'a', 'example.0XA', 'foo.bar.0x1F
          '017700000001', '1.2.3', '1.2', '1', '256', '1.2.3.256', '1.2.3.4.5', '1.2.3.4.', '1..2', '0x', '0x.', '08', '0.08',
          '4294967295', '4294967296', '0xffffffff', '0x100000000', '1.0xffffff', '1.0x1000000', '1.2.0xffff', '1.2.65536',
          '1.2.3.0xff', 'a.1', '1.a', 'a.0x1', 'a.08', 'a.1.', 'a..1', '.1', '1.', '09', '0X10', '00000000000000000001',
-         '[::1]', '[::]', '[1::]', '[1:2:3:4:5:6:7:8]', '[1:2:3:4:5:6::8]', '[::1.2.3.4]', '[::ffff:1.2.3.4]', '[1::1:0:0:1]',
+         '[::1]', '[::]', '[1::]', '[2001:db8::100]', '[fe80::100:1]', '[::1.0.0.1]', '[10:100:1000:f:ff:fff:ffff:0]', '[1:2:3:4:5:6:7:8]', '[1:2:3:4:5:6::8]', '[::1.2.3.4]', '[::ffff:1.2.3.4]', '[1::1:0:0:1]',
          '[1:0:0:1::1]', '[0:0:1:0:0:1:0:0]', '[A:B:C:D:E:F:0:1]', '[::1', '::1]', '[:1]', '[1:2:3:4:5:6:7]', '[1:2:3:4:5:6:7:8:9]',
          '[::1.2.3]', '[::1.2.3.4.5]', '[::01.2.3.4]', '[::1.2.3.256]', '[1:2:3:4:5:6:7::]', '[::12345]', '[::g]', '[1.2.3.4]',
          '[::1%25en0]', '[0:0:0:0:0:0:0:0]', '[0:1:0:1:0:1:0:1]',
